@@ -44,6 +44,42 @@ Theorem C19_shuffle_stage : forall en dur f it0 r clock,
 Proof. exact shuffle_stage. Qed.
 Print Assumptions C19_shuffle_stage.
 
+(* the same two statements for the EXECUTABLE shuffle of [exec] (sub-behaviour bodies, run-time draws,
+   nested choose/shuffle and rejections in between): every shuffle that returns before the simulation's
+   time limit has run each listed item exactly once; no fuel hypothesis (fuel exhaustion is [Rej]) *)
+Theorem C19_shuffle_exec_permutation : forall P maxSteps fuel n items s,
+  leaves (fun r => (time (fst r) < maxSteps)%nat -> Permutation (snd r) (map fst items))
+         (shuffle P maxSteps fuel n items s).
+Proof. exact shuffle_exec_permutation. Qed.
+Print Assumptions C19_shuffle_exec_permutation.
+
+Theorem C19_shuffle_exec_stage : forall P maxSteps f n it0 r s, Nat.leb maxSteps (time s) = false ->
+  shuffle P maxSteps (S f) n (it0 :: r) s =
+  bind (pick_item P (time s) (it0 :: r))
+    (fun it => bind (exec P maxSteps f (body (beh P (fst (snd it)))) s)
+       (fun s' => bind (shuffle P maxSteps f n (drop_pos (fst it) (it0 :: r)) s')
+          (fun r' => Ret (fst r', fst it :: snd r')))).
+Proof. exact shuffle_exec_stage. Qed.
+Print Assumptions C19_shuffle_exec_stage.
+
+(* Options({..}) construction: entries of weight 0 are dropped.  P(entry i) = w_i / sum of the weights for
+   EVERY weight list (a zero-weight entry has probability 0; all weights zero: rejection), and no result
+   ever has weight 0 *)
+Theorem C19_options_prob : forall ws i, (i < length ws)%nat ->
+  mass (Nat.eqb i) (options_tree ws) == nth i ws 0 / qsum ws.
+Proof. exact options_prob. Qed.
+Print Assumptions C19_options_prob.
+
+Theorem C19_zero_weight_never_picked : forall ws,
+  leaves (fun k => ~ nth k ws 0 == 0) (options_tree ws).
+Proof. exact zero_weight_never_picked. Qed.
+Print Assumptions C19_zero_weight_never_picked.
+
+Theorem C19_choose_zero_weight_never : forall ws, (2 <= length ws)%nat ->
+  leaves (fun k => ~ nth k ws 0 == 0) (pick_pos ws).
+Proof. exact choose_zero_weight_never. Qed.
+Print Assumptions C19_choose_zero_weight_never.
+
 (* a run-time integer-range draw is uniform and independent of what happened before *)
 Theorem C19_runtime_draw_product : forall (A : Type) lo hi (k : Z -> ptree A) (h : A -> Q), (lo <= hi)%Z ->
   expect h (bind (randint_tree lo hi) k) ==
@@ -62,4 +98,18 @@ Example C19_example :
   Qred (rejmass (run_main ex_P 8 20 3)) = 1 # 12 /\
   Qred (mass (fun s => match rev (log s) with (_, a) :: _ => Z.eqb a 2 | [] => false end) (run_main ex_P 8 20 3)) = 11 # 15 /\
   Qred (mass (Nat.eqb 1) (pick_pos [1; 2; 1 # 2])) = 4 # 7.
+Proof. vm_compute. repeat split; reflexivity. Qed.
+
+(* non-vacuity of the executable-shuffle theorem and of the zero-weight lemmas: shuffle {B:1, C:2, A:1, B:0}
+   from step 0 (A not yet enabled, the zero-weight B always last): 4 complete orders with their exact
+   probabilities; {0, 0} with two enabled items rejects, a single enabled zero-weight item is run without a
+   draw *)
+Example C19_example_exec_shuffle :
+  map (fun x => (snd (fst x), snd x))
+      (paths (bind (shuffle ex_P 8 20 20 (number O [(1%nat, 1); (2%nat, 2); (0%nat, 1); (1%nat, 0)]) (mkState O 0 []))
+                   (fun r => Ret (snd r)))) =
+    [(2 # 9, Some [0; 1; 2; 3]%nat); (1 # 9, Some [0; 2; 1; 3]%nat);
+     (1 # 3, Some [1; 0; 2; 3]%nat); (1 # 3, Some [1; 2; 0; 3]%nat)] /\
+  pick_pos [0; 0] = Rej /\ pick_pos [0] = Ret O /\
+  Qred (mass (Nat.eqb 2) (pick_pos [1; 0; 3])) = 3 # 4 /\ Qred (mass (Nat.eqb 1) (pick_pos [1; 0; 3])) = 0.
 Proof. vm_compute. repeat split; reflexivity. Qed.
